@@ -7,13 +7,18 @@ are PARAMETERS: every theorem holds for ANY sections / `zi` / `edge` (linearity,
 hypothesis `SteadyState secs 1 ∧ gainProd secs = 1` (DC gain) which the harness evaluates on the coefficients scipy
 actually returned, on every case of every run.  No bound on the signal length or on the number of sections.
 
+`retH` (LPF's optional second result) is modelled as the product of the section responses B_i(z⁻¹)/A_i(z⁻¹) on the N-point
+FFT grid, fftshift-ed: length, un-shifting (odd N included), DC value (= Π Σb/Σa, the very quantity of `dc_gain`),
+Hermitian symmetry, and its meaning for the recursion (a steady-state exponential is scaled by H per pass, by |H|²
+forward–backward) are theorems.
+
 NOT theorems (they depend on scipy's Bessel design, which is not modelled): −6.0 dB at cut-off, monotone
-attenuation, zero delay / symmetric pulse response, "never increases the power of a tone", retH — oracle only.
+attenuation, zero delay / symmetric pulse response, "never increases the power of a tone" — oracle only.
 -/
-import OptiVerif.Lemmas.Filter
+import OptiVerif.Lemmas.FilterResp
 
 namespace OptiVerif.Props.C11
-open OptiVerif OptiVerif.Filter
+open OptiVerif OptiVerif.Filter OptiVerif.Fourier
 
 /-! ### length, and scipy's length check -/
 
@@ -157,6 +162,82 @@ theorem dc_gain_sq (secs : List (Sec ℝ)) (hz : SteadyState secs 1) (e n : ℕ)
     simp only [filtfilt, List.length_replicate, Nat.not_le.mpr hn, if_false, e1, last1_replicate,
       oddExt_replicate e (m + 1) c hn, fbCore, pass_const secs _ h1, List.reverse_replicate, trim_replicate]
 
+/-! ### retH: the single-pass response on the signal's frequency grid -/
+
+/-- N points for a record of N samples -/
+theorem retH_len (secs : List (Sec ℝ)) (n : ℕ) : (retH secs n).length = n := length_retH secs n
+
+/-- the returned array is the fftshift of the grid-ordered response: numpy's `ifftshift` recovers grid order
+    k = 0..N-1 for EVERY N, odd included -/
+theorem retH_shift (secs : List (Sec ℝ)) (n : ℕ) : ifftshift (retH secs n) = respGrid secs n := by
+  simp [retH, ifftshift_fftshift]
+
+/-- which frequency sits where: position i holds the response at z⁻¹ = e^{-j2πk/N}, k = (i + N − N/2) mod N -/
+theorem retH_grid (secs : List (Sec ℝ)) (n i : ℕ) (h : i < (retH secs n).length) :
+    (retH secs n)[i] = sosResp secs (gridW n ((i + (n - n / 2)) % n)) := getElem_retH secs n i h
+
+/-- at DC (centre N/2 of the shifted array) the response is Π Σb/Σa -/
+theorem retH_dc (secs : List (Sec ℝ)) (n : ℕ) (hn : 0 < n) (hd : ∀ c ∈ secs, 1 + c.a1 + c.a2 ≠ 0) :
+    (retH secs n)[n / 2]? = some ⟨gainProd secs, 0⟩ := by
+  have hlt : n / 2 < (retH secs n).length := by simp; omega
+  have e : n / 2 + (n - n / 2) = n := by omega
+  rw [List.getElem?_eq_getElem hlt, getElem_retH, e, Nat.mod_self, gridW_zero, sosResp_one secs hd]
+
+/-- under the hypotheses of `dc_gain` (checked on scipy's coefficients every run) the returned response is 1 at DC:
+    the frequency-domain face of F(const c) = const c -/
+theorem retH_dc_one (secs : List (Sec ℝ)) (n : ℕ) (hn : 0 < n) (hz : SteadyState secs 1) (hg : gainProd secs = 1) :
+    (retH secs n)[n / 2]? = some ⟨1, 0⟩ := by
+  rw [retH_dc secs n hn (den_ne_zero_of_steadyState secs 1 hz), hg]
+
+/-- H(−ω) = conj H(ω) on the grid, because the coefficients are real -/
+theorem retH_hermitian_grid (secs : List (Sec ℝ)) (n k : ℕ) (hn : 0 < n) (hk : k ≤ n) :
+    sosResp secs (gridW n (n - k)) = Cx.conj (sosResp secs (gridW n k)) := by
+  rw [gridW_mirror n k hn hk, sosResp_conj]
+
+/-- the same on the returned (shifted) array: the entries j bins either side of the centre are conjugates -/
+theorem retH_hermitian (secs : List (Sec ℝ)) (n j : ℕ) (hj : 0 < j) (h1 : n / 2 + j < n) :
+    ∃ a b, (retH secs n)[n / 2 + j]? = some a ∧ (retH secs n)[n / 2 - j]? = some b ∧ b = Cx.conj a := by
+  have l1 : n / 2 + j < (retH secs n).length := by simpa using h1
+  have l2 : n / 2 - j < (retH secs n).length := by simp; omega
+  have e1 : n / 2 + j + (n - n / 2) = n + j := by omega
+  have e2 : n / 2 - j + (n - n / 2) = n - j := by omega
+  refine ⟨_, _, List.getElem?_eq_getElem l1, List.getElem?_eq_getElem l2, ?_⟩
+  rw [getElem_retH, getElem_retH, e1, e2, Nat.add_mod_left, Nat.mod_eq_of_lt (by omega : j < n),
+    Nat.mod_eq_of_lt (by omega : n - j < n)]
+  exact retH_hermitian_grid secs n j (by omega) (by omega)
+
+/-- hence |H| is even about the centre -/
+theorem retH_abs_even (secs : List (Sec ℝ)) (n k : ℕ) (hn : 0 < n) (hk : k ≤ n) :
+    (sosResp secs (gridW n (n - k))).normSq = (sosResp secs (gridW n k)).normSq := by
+  rw [retH_hermitian_grid secs n k hn hk, normSq_conj]
+
+/-- what H means for the recursion (one pass): the cascade of direct-form-II-transposed sections, each in its steady
+    state for the complex exponential A·e^{jθm} (complex samples = (re, im) pairs through the real recursion `secRun`),
+    returns the exponential multiplied by H = Π B_i/A_i at z⁻¹ = e^{-jθ} — for every record length M -/
+theorem single_pass_gain (secs : List (Sec ℝ)) (θ : ℝ) (A : Cx ℝ) (M : ℕ)
+    (hd : ∀ c ∈ secs, (secDen c (Cx.cis (-θ))).normSq ≠ 0) :
+    cascadeCx (Cx.cis θ) (Cx.cis (-θ)) secs A (expSeq (Cx.cis θ) A M)
+      = expSeq (Cx.cis θ) (sosResp secs (Cx.cis (-θ)) * A) M :=
+  cascadeCx_exp _ _ (cis_mul_cis_neg θ) M secs A hd
+
+/-- forward–backward (pass, reverse, pass, reverse) in steady state multiplies the exponential by |H(θ)|²: a real,
+    non-negative factor — no phase, i.e. no delay at any frequency, whatever the sections -/
+theorem two_pass_gain (secs : List (Sec ℝ)) (θ : ℝ) (A : Cx ℝ) (M : ℕ)
+    (hd : ∀ c ∈ secs, (secDen c (Cx.cis (-θ))).normSq ≠ 0) :
+    (cascadeCx (Cx.cis (-θ)) (Cx.cis θ) secs (sosResp secs (Cx.cis (-θ)) * A * cpow (Cx.cis θ) M)
+        (cascadeCx (Cx.cis θ) (Cx.cis (-θ)) secs A (expSeq (Cx.cis θ) A (M + 1))).reverse).reverse
+      = expSeq (Cx.cis θ) (Cx.smul (sosResp secs (Cx.cis (-θ))).normSq A) (M + 1) := by
+  have hu : ∀ c ∈ secs, (secDen c (Cx.cis θ)).normSq ≠ 0 := by
+    intro c hc
+    have := hd c hc
+    rwa [cis_neg_eq_conj, secDen_conj, normSq_conj] at this
+  rw [two_pass_exp _ _ (cis_mul_cis_neg θ) secs M A hd hu]
+  congr 1
+  have : sosResp secs (Cx.cis θ) = Cx.conj (sosResp secs (Cx.cis (-θ))) := by
+    rw [← sosResp_conj, cis_neg_eq_conj, conj_conj]
+  rw [this, conj_mul_self]
+  apply cx_ext <;> simp [Cx.smul]
+
 /-! ### non-vacuity: a concrete one-section filter  y[n] = (x[n] + x[n−1])/4 + y[n−1]/2 -/
 
 /-- b = [1/4, 1/4, 0], a = [1, −1/2, 0], zi = [3/4, 0] (what `sosfilt_zi` gives for it) -/
@@ -185,5 +266,16 @@ example : filtfilt [sec0] 1 [0, 1] = .ok [3/128, 31/64] := by
 example : ∃ fx fy, filtfilt [sec0] 1 [0, 1, 4] = .ok fx ∧ filtfilt [sec0] 1 [2, -1, 0] = .ok fy ∧
     filtfilt [sec0] 1 (lin 3 (-2) [0, 1, 4] [2, -1, 0]) = .ok (lin 3 (-2) fx fy) :=
   filt_linear _ 1 3 (-2) _ _ rfl (by decide)
+
+/-- the hypothesis of `single_pass_gain` / `two_pass_gain` holds for the concrete section at Nyquist (θ = π) -/
+example : ∀ c ∈ [sec0], (secDen c (Cx.cis (-Real.pi))).normSq ≠ 0 := by
+  intro c hc
+  simp only [List.mem_singleton] at hc
+  subst hc
+  simp [secDen, sec0, cone_eq, Cx.cis, Cx.smul, Cx.normSq]
+  norm_num
+
+/-- and `retH_dc_one` gives a concrete value: the centre of a 5-point retH of the concrete filter is 1 -/
+example : (retH [sec0] 5)[2]? = some ⟨1, 0⟩ := retH_dc_one _ 5 (by decide) sec0_steady.1 sec0_steady.2
 
 end OptiVerif.Props.C11
